@@ -1,15 +1,440 @@
 /-
-  Driver engine stub (Host): replaced by the real engine; see notes/AGENT_BRIEF.md.
+  Driver engine for the host-pool family (C01-C05, C10-C12, C17): per operation line the engine
+  (1) evaluates the ledger / non-negativity / totals predicates and the mechanism specification
+      on the implementation's pre and post states (PROPFAIL),
+  (2) recomputes the post state with the L1 model, random draws inferred from the observed
+      difference and checked for validity, and compares exactly (MISMATCH).
+  Protocol (all cells of the landscape are listed on every line, row-major):
+    hp.begin <SI|SEI> <latency> <rows> <cols>
+    hp.state | <cells> | <suitable>
+    hp.<op> <args> => <ret> | <cells> | <suitable>
+  cell = s,i,r,te,th,died;e0,e1,..;m0,m1,..      suitable = r,c
 -/
 import PopsModel.Driver.Util
+import PopsModel.Model.HostPred
+import PopsModel.Model.Treat
 namespace Pops.Driver.HostEng
 open Pops Pops.Driver
 
 structure State where
-  dummy : Unit := ()
+  mt : ModelType := .si
+  latency : Nat := 0
+  rows : Nat := 0
+  cols : Nat := 0
+  cells : List Cell := []
+  suit : List (Int × Int) := []
 deriving Inhabited
 
-def handle (st : State) (_cmd : String) (_inp _obs : List String) : State × String :=
-  (st, "BADLINE")
+def intList? (s : String) : Option (List Int) :=
+  if s = "-" ∨ s = "" then some [] else (s.splitOn ",").mapM parseInt?
+
+def cell? (tok : String) : Option Cell :=
+  match tok.splitOn ";" with
+  | [a, e, m] => do
+    let h ← intList? a
+    let e ← intList? e
+    let m ← intList? m
+    match h with
+    | [s, i, r, te, th, died] => some { s, e, i, r, te, mort := m, died, th }
+    | _ => none
+  | _ => none
+
+def pair? (tok : String) : Option (Int × Int) :=
+  match tok.splitOn "," with
+  | [a, b] => do let x ← parseInt? a; let y ← parseInt? b; some (x, y)
+  | _ => none
+
+/-- Split observed tokens at `|` into segments. -/
+def segments (toks : List String) : List (List String) :=
+  let rec go (cur : List String) (acc : List (List String)) : List String → List (List String)
+    | [] => (cur.reverse :: acc).reverse
+    | "|" :: rest => go [] (cur.reverse :: acc) rest
+    | t :: rest => go (t :: cur) acc rest
+  go [] [] toks
+
+structure Obs where
+  ret : List String
+  cells : List Cell
+  suit : List (Int × Int)
+
+def obs? (toks : List String) : Option Obs :=
+  match segments toks with
+  | [ret, cs, su] => do
+    let cells ← cs.mapM cell?
+    let suit ← su.mapM pair?
+    some { ret, cells, suit }
+  | _ => none
+
+def showCell (c : Cell) : String :=
+  let l (x : List Int) := if x.isEmpty then "-" else ",".intercalate (x.map toString)
+  s!"{c.s},{c.i},{c.r},{c.te},{c.th},{c.died};{l c.e};{l c.mort}"
+
+def idx (st : State) (r c : Int) : Nat := (r * st.cols + c).toNat
+def inside (st : State) (r c : Int) : Bool := decide (0 ≤ r) && decide (r < st.rows) && decide (0 ≤ c) && decide (c < st.cols)
+
+/-- Generic invariants (C01 ledger by class, C02, C03) for every cell; `exemptMort` for the
+    overpopulation moves, which are documented not to maintain the mortality cohorts. -/
+def invariants (pre post : List Cell) (cls : Nat → Ledger) (exemptMort : Bool) (skipLedger : Nat → Bool) : Option String :=
+  let rec go (k : Nat) : List Cell → List Cell → Option String
+    | a :: as, b :: bs =>
+      if !(skipLedger k) && !(ledgerOK (cls k) a b) then
+        some s!"PROPFAIL C01 ledger cell={k} pre={showCell a} post={showCell b}"
+      else if a.nonNeg && !b.nonNeg then some s!"PROPFAIL C02 nonneg cell={k} pre={showCell a} post={showCell b}"
+      else if a.nonNeg && a.totalsOK && a.infectedLeTotal && !b.infectedLeTotal then
+        some s!"PROPFAIL C02 infected_le_total cell={k} post={showCell b}"
+      else if a.totalsOK && !b.totalsOK then some s!"PROPFAIL C03 totals cell={k} pre={showCell a} post={showCell b}"
+      else if !exemptMort && a.mortOK && !b.mortOK then some s!"PROPFAIL C03 mortality_cohorts cell={k} pre={showCell a} post={showCell b}"
+      else go (k + 1) as bs
+    | [], [] => none
+    | _, _ => some "BADLINE cells"
+  go 0 pre post
+
+def firstDiff (exp obs : List Cell) : Option String :=
+  let rec go (k : Nat) : List Cell → List Cell → Option String
+    | a :: as, b :: bs => if a == b then go (k + 1) as bs else some s!"cell={k} model={showCell a} observed={showCell b}"
+    | [], [] => none
+    | _, _ => some "length"
+  go 0 exp obs
+
+def cmpCells (what : String) (exp obs : List Cell) : String :=
+  match firstDiff exp obs with
+  | none => "ok"
+  | some d => s!"MISMATCH {what} {d}"
+
+def isSuit (st : State) (k : Nat) : Bool :=
+  st.suit.any fun (r, c) => inside st r c && idx st r c == k
+
+/-- Apply `f` to every suitable cell (in list order), other cells unchanged. -/
+def mapSuit (st : State) (f : Nat → Cell → Cell) : List Cell :=
+  st.suit.foldl (fun cells (r, c) =>
+    if inside st r c then
+      let k := idx st r c
+      match cells[k]? with
+      | some cell => cells.set k (f k cell)
+      | none => cells
+    else cells) st.cells
+
+def finish (st : State) (o : Obs) (verdict : String) : State × String :=
+  ({ st with cells := o.cells, suit := o.suit }, verdict)
+
+def ratsFor (st : State) (toks : List String) : Option (List Rat) := do
+  let l ← parseRats? toks
+  if l.length = st.rows * st.cols then some l else none
+
+def handle (st : State) (cmd : String) (inp obsToks : List String) : State × String :=
+  match cmd, inp with
+  | "hp.begin", [mt, lat, rows, cols] =>
+    match modelTypeFromString mt, parseNat? lat, parseNat? rows, parseNat? cols with
+    | .ok mt, some l, some r, some c => ({ st with mt := mt, latency := l, rows := r, cols := c, cells := [], suit := [] }, "ok")
+    | _, _, _, _ => (st, "BADLINE")
+  | "hp.state", [] =>
+    match obs? obsToks with
+    | some o => finish st o "ok"
+    | none => (st, "BADLINE")
+  | _, _ =>
+    match obs? obsToks with
+    | none => (st, "BADLINE obs")
+    | some o =>
+      let pre := st.cells
+      let post := o.cells
+      if post.length ≠ pre.length then (st, "BADLINE cellcount") else
+      let reclass : Nat → Ledger := fun _ => .reclassify
+      let noSkip : Nat → Bool := fun _ => false
+      match cmd, inp with
+      -- add_disperser_at r c
+      | "hp.add", [r, c] =>
+        match parseInt? r, parseInt? c, o.ret with
+        | some r, some c, [ret] =>
+          let k := idx st r c
+          match invariants pre post reclass false noSkip with
+          | some v => finish st o v
+          | none =>
+            let (c', res) := (pre[k]!).addDisperserAt st.mt
+            if toString res ≠ ret then finish st o s!"MISMATCH hp.add ret model={res}"
+            else finish st o (cmpCells cmd (pre.set k c') post)
+        | _, _, _ => (st, "BADLINE")
+      -- disperser_to r c stochastic pEst u N w sus
+      | "hp.dispto", [r, c, sto, pEst, u, n, w, sus] =>
+        match parseInt? r, parseInt? c, parseRat? pEst, parseRat? u, parseInt? n with
+        | some r, some c, some pEst, some u, some n =>
+          let k := idx st r c
+          let env : EnvCell := { n := n, w := if w = "none" then none else parseRat? w, sus := if sus = "none" then none else parseRat? sus }
+          let sto := sto = "1"
+          let cell := pre[k]!
+          let model := cell.disperserTo st.mt env sto pEst u
+          match o.ret with
+          | [ret] =>
+            if ret.startsWith "err:" then
+              match model with
+              | .error e => (st, if ret = errTok e then "ok" else s!"MISMATCH hp.dispto model={errTok e}")
+              | .ok _ =>
+                -- C16/C12: suitability outside [0,1] must be rejected, anything else must not throw
+                (st, s!"MISMATCH hp.dispto model=ok observed={ret}")
+            else
+              match invariants pre post reclass false noSkip with
+              | some v => finish st o v
+              | none =>
+                match parseInt? ret with
+                | none => (st, "BADLINE")
+                | some res =>
+                  -- property predicates on the observed result (domain: N > 0, factors in [0,1])
+                  let inDomain := decide (n > 0) && decide (cell.s ≤ n)
+                  if inDomain && !(establishSpec cell env sto pEst u res) then
+                    finish st o s!"PROPFAIL C12 establish_event s={cell.s} N={n} ret={res}"
+                  else if !(landingSpec st.mt cell (post[k]!) res) then
+                    finish st o s!"PROPFAIL C04 landing cell={k} ret={res} pre={showCell cell} post={showCell (post[k]!)}"
+                  else
+                    match model with
+                    | .error e => finish st o s!"MISMATCH hp.dispto model={errTok e}"
+                    | .ok (c', mres, _) =>
+                      if mres ≠ res then finish st o s!"MISMATCH hp.dispto ret model={mres}"
+                      else finish st o (cmpCells cmd (pre.set k c') post)
+          | _ => (st, "BADLINE")
+        | _, _, _, _, _ => (st, "BADLINE")
+      -- deterministic dispersers_from r c lambda
+      | "hp.dispfrom", [r, c, lam] =>
+        match parseInt? r, parseInt? c, parseRat? lam, o.ret with
+        | some r, some c, some lam, [ret] =>
+          let cell := pre[idx st r c]!
+          let m := cell.dispersersFromDet lam
+          if cell.i ≤ 0 && ret ≠ "0" then finish st o "PROPFAIL C04 dispersers_without_infection"
+          else if post != pre then finish st o "PROPFAIL C04 generation_changed_hosts"
+          else finish st o (if toString m = ret then "ok" else s!"MISMATCH hp.dispfrom model={m}")
+        | _, _, _, _ => (st, "BADLINE")
+      -- pests_from / pests_to r c k  (overpopulation primitives; mortality cohorts exempt)
+      | "hp.pestsfrom", [r, c, kk] =>
+        match parseInt? r, parseInt? c, parseInt? kk, o.ret with
+        | some r, some c, some kk, [ret] =>
+          let k := idx st r c
+          match invariants pre post reclass true noSkip with
+          | some v => finish st o v
+          | none =>
+            let (c', res) := (pre[k]!).pestsFrom kk
+            if toString res ≠ ret then finish st o s!"MISMATCH hp.pestsfrom ret model={res}"
+            else finish st o (cmpCells cmd (pre.set k c') post)
+        | _, _, _, _ => (st, "BADLINE")
+      | "hp.peststo", [r, c, kk] =>
+        match parseInt? r, parseInt? c, parseInt? kk, o.ret with
+        | some r, some c, some kk, [ret] =>
+          let k := idx st r c
+          match invariants pre post reclass true noSkip with
+          | some v => finish st o v
+          | none =>
+            let cell := pre[k]!
+            let (c', res) := cell.pestsTo kk
+            -- C17 arrival: min(count, susceptible) establish; C02: never more than requested / present
+            if cell.s ≥ 0 && kk ≥ 0 && ret ≠ toString (min kk cell.s) then
+              finish st o s!"PROPFAIL C17 arrival ret={ret} expected={min kk cell.s}"
+            else if toString res ≠ ret then finish st o s!"MISMATCH hp.peststo ret model={res}"
+            else finish st o (cmpCells cmd (pre.set k c') post)
+        | _, _, _, _ => (st, "BADLINE")
+      -- move_hosts_from_to r1 c1 r2 c2 count
+      | "hp.move", [r1, c1, r2, c2, cnt] =>
+        match parseInt? r1, parseInt? c1, parseInt? r2, parseInt? c2, parseInt? cnt, o.ret with
+        | some r1, some c1, some r2, some c2, some cnt, [ret] =>
+          let a := idx st r1 c1
+          let b := idx st r2 c2
+          let src := pre[a]!
+          let dst := pre[b]!
+          let src' := post[a]!
+          let dst' := post[b]!
+          -- target joins the suitable cells when it had no host before
+          let expSuit := if dst.th == 0 && !(st.suit.contains (r2, c2)) then st.suit ++ [(r2, c2)] else st.suit
+          if a == b then
+            finish st o (if post == pre then (if o.suit == expSuit then "ok" else "MISMATCH hp.move suitable") else "MISMATCH hp.move same-cell changed")
+          else
+            let others := (List.range pre.length).all fun k => k == a || k == b || pre[k]! == post[k]!
+            if !others then finish st o "PROPFAIL C17 move_touched_other_cells"
+            else if !(moveLedgerOK src dst src' dst') then
+              finish st o s!"PROPFAIL C01 move_ledger src={showCell src} dst={showCell dst} src'={showCell src'} dst'={showCell dst'}"
+            else if src.nonNeg && dst.nonNeg && !(src'.nonNeg && dst'.nonNeg) then
+              finish st o s!"PROPFAIL C02 nonneg move src'={showCell src'} dst'={showCell dst'}"
+            else if src.totalsOK && dst.totalsOK && !(src'.totalsOK && dst'.totalsOK) then
+              finish st o s!"PROPFAIL C03 totals move src'={showCell src'} dst'={showCell dst'}"
+            else if src.mortOK && dst.mortOK && src.totalsOK && !(src'.mortOK && dst'.mortOK) then
+              finish st o s!"PROPFAIL C03 mortality_cohorts move src'={showCell src'} dst'={showCell dst'}"
+            else if src.consistent && ret ≠ toString (min cnt src.hosts) then
+              finish st o s!"PROPFAIL C17 move_amount ret={ret} expected={min cnt src.hosts}"
+            else if src.consistent && decide (src.hosts - src'.hosts ≠ min cnt src.hosts) then
+              finish st o s!"PROPFAIL C17 move_amount hosts_left={src.hosts - src'.hosts}"
+            else if src.consistent && !(o.suit.contains (r2, c2)) && decide (min cnt src.hosts > 0) then
+              finish st o "PROPFAIL C17 target_not_suitable"
+            else
+              let d : ClassDraw := { i := src.i - src'.i, s := src.s - src'.s, e := src.te - src'.te, r := src.r - src'.r }
+              let drawE := subL src.e src'.e
+              let drawM := subL src.mort src'.mort
+              if !(validClassDrawB src cnt d) then finish st o s!"MISMATCH hp.move class-draw-invalid i={d.i} s={d.s} e={d.e} r={d.r}"
+              else if d.e > 0 && !(validDrawB src.e d.e drawE) then finish st o "MISMATCH hp.move exposed-draw-invalid"
+              else if d.i > 0 && !(validDrawB src.mort d.i drawM) then finish st o "MISMATCH hp.move mortality-draw-invalid"
+              else
+                let (ms, md, moved) := moveHosts src dst cnt d drawE drawM
+                if toString moved ≠ ret then finish st o s!"MISMATCH hp.move ret model={moved}"
+                else if o.suit != expSuit then finish st o "MISMATCH hp.move suitable"
+                else finish st o (cmpCells cmd ((pre.set a ms).set b md) post)
+        | _, _, _, _, _, _ => (st, "BADLINE")
+      -- SimpleTreatment / PesticideTreatment apply over suitable cells: kind app coefs...
+      | "hp.treat", kind :: app :: coefToks =>
+        match ratsFor st coefToks, treatAppFromString app with
+        | some coefs, .ok app =>
+          let pest := kind = "pesticide"
+          let all := app == .allInfected
+          let cls : Nat → Ledger := fun _ => if pest then .reclassify else .removal
+          -- F20: per-cohort rounding can break i = sum(mort); region predicate decides known / violation
+          let f20 : Option String := (List.range pre.length).findSome? fun k =>
+            let a := pre[k]!; let b := post[k]!
+            if isSuit st k && a.mortOK && !b.mortOK then
+              let agrees := roundingAgrees (if pest then rfloor else rceil) coefs[k]! a
+              if !all && !agrees then some s!"KNOWN C03 F20 cell={k} coef={coefs[k]!} pre={showCell a} post={showCell b}"
+              else some s!"PROPFAIL C03 mortality_cohorts cell={k} pre={showCell a} post={showCell b}"
+            else none
+          if o.ret.any (·.startsWith "err:") then
+            -- a treatment inside the domain never throws
+            let ok := (List.range pre.length).all fun k => !(isSuit st k) || (pre[k]!).consistent
+            (st, if ok then s!"PROPFAIL C10 treatment_threw {o.ret}" else "ok")
+          else
+          match invariants pre post cls true noSkip with
+          | some v => finish st o v
+          | none =>
+            let spec : Option String := (List.range pre.length).findSome? fun k =>
+              let a := pre[k]!; let b := post[k]!
+              if !(isSuit st k) then (if a == b then none else some s!"PROPFAIL C10 untreated_cell_changed cell={k}")
+              else if coefs[k]! == 0 && a != b && a.totalsOK then some s!"PROPFAIL C10 coef_zero_changed cell={k}"
+              else if a.consistent && decide (0 ≤ coefs[k]!) && decide (coefs[k]! ≤ 1) then
+                if pest then (if pesticideTreatSpec coefs[k]! all a b then none else some s!"PROPFAIL C10 pesticide_share cell={k} coef={coefs[k]!} pre={showCell a} post={showCell b}")
+                else (if simpleTreatSpec coefs[k]! all a b then none else some s!"PROPFAIL C10 removal_share cell={k} coef={coefs[k]!} pre={showCell a} post={showCell b}")
+              else none
+            match spec with
+            | some v => finish st o v
+            | none =>
+              let exp := mapSuit st fun k cell =>
+                let r := if pest then cell.pesticideTreat coefs[k]! app else cell.simpleTreat coefs[k]! app
+                match r with | .ok c' => c' | .error _ => cell
+              match firstDiff exp post with
+              | some d => finish st o s!"MISMATCH hp.treat {d}"
+              | none => finish st o (f20.getD "ok")
+        | _, _ => (st, "BADLINE")
+      | "hp.treatend", coefToks =>
+        match ratsFor st coefToks with
+        | some coefs =>
+          match invariants pre post reclass false noSkip with
+          | some v => finish st o v
+          | none =>
+            let spec : Option String := (List.range pre.length).findSome? fun k =>
+              let a := pre[k]!; let b := post[k]!
+              if !(isSuit st k) then (if a == b then none else some s!"PROPFAIL C10 untreated_cell_changed cell={k}")
+              else if pesticideEndSpec coefs[k]! a b then none else some s!"PROPFAIL C10 pesticide_end cell={k}"
+            match spec with
+            | some v => finish st o v
+            | none => finish st o (cmpCells cmd (mapSuit st fun k cell => cell.pesticideEnd coefs[k]!) post)
+        | none => (st, "BADLINE")
+      -- SurvivalRateAction: rates per cell
+      | "hp.survival", rateToks =>
+        match ratsFor st rateToks with
+        | some rates =>
+          match invariants pre post reclass false noSkip with
+          | some v => finish st o v
+          | none =>
+            let spec : Option String := (List.range pre.length).findSome? fun k =>
+              let a := pre[k]!; let b := post[k]!
+              if !(isSuit st k) then (if a == b then none else some s!"PROPFAIL C12 survival_touched_unsuitable cell={k}")
+              else if a.consistent && decide (0 ≤ rates[k]!) then
+                (if survivalSpec rates[k]! a b then none else some s!"PROPFAIL C12 survival cell={k} rate={rates[k]!} pre={showCell a} post={showCell b}")
+              else none
+            match spec with
+            | some v => finish st o v
+            | none =>
+              let bad : Option String := (List.range pre.length).findSome? fun k =>
+                let a := pre[k]!; let b := post[k]!
+                if isSuit st k && decide (rates[k]! < 1) then
+                  let dI := subL a.mort b.mort
+                  let nI := a.ratioRemovedInfected rates[k]!
+                  let a1 := a.removeInfected nI dI
+                  let dE := subL a.e b.e
+                  let nE := a1.ratioRemovedExposed rates[k]!
+                  if nI > 0 && !(validDrawB a.mort nI dI) then some s!"mortality-draw-invalid cell={k}"
+                  else if nE > 0 && !(validDrawB a.e nE dE) then some s!"exposed-draw-invalid cell={k}"
+                  else if a.removeByRatio rates[k]! dI dE != b then some s!"cell={k} model={showCell (a.removeByRatio rates[k]! dI dE)} observed={showCell b}"
+                  else none
+                else if a != b then some s!"cell={k} unchanged-expected"
+                else none
+              finish st o (match bad with | some d => s!"MISMATCH hp.survival {d}" | none => "ok")
+        | none => (st, "BADLINE")
+      -- RemoveByTemperature: threshold, temperatures per cell
+      | "hp.lethal", thr :: tempToks =>
+        match parseRat? thr, ratsFor st tempToks with
+        | some thr, some temps =>
+          match invariants pre post reclass false noSkip with
+          | some v => finish st o v
+          | none =>
+            let spec : Option String := (List.range pre.length).findSome? fun k =>
+              let a := pre[k]!; let b := post[k]!
+              if !(isSuit st k) then (if a == b then none else some s!"PROPFAIL C12 lethal_touched_unsuitable cell={k}")
+              else if a.consistent then
+                (if lethalSpec (decide (temps[k]! < thr)) a b then none else some s!"PROPFAIL C12 lethal cell={k} temp={temps[k]!} pre={showCell a} post={showCell b}")
+              else none
+            match spec with
+            | some v => finish st o v
+            | none =>
+              let bad : Option String := (List.range pre.length).findSome? fun k =>
+                let a := pre[k]!; let b := post[k]!
+                if isSuit st k && decide (temps[k]! < thr) then
+                  let d := subL a.mort b.mort
+                  if a.i > 0 && !(validDrawB a.mort a.i d) then some s!"mortality-draw-invalid cell={k}"
+                  else if a.removeAllInfected d != b then some s!"cell={k} model={showCell (a.removeAllInfected d)} observed={showCell b}"
+                  else none
+                else if a != b then some s!"cell={k} unchanged-expected"
+                else none
+              finish st o (match bad with | some d => s!"MISMATCH hp.lethal {d}" | none => "ok")
+        | _, _ => (st, "BADLINE")
+      -- Mortality action (apply at suitable cells, then age all cohorts): rate lag
+      | "hp.mortality", [rate, lag] =>
+        match parseRat? rate, parseInt? lag with
+        | some rate, some lag =>
+          let cls : Nat → Ledger := fun _ => .death
+          if o.ret.any (·.startsWith "err:") then
+            -- C03: mortality never fails on a consistent state
+            let okPre := (List.range pre.length).all fun k => !(isSuit st k) || (pre[k]!).consistent
+            let modelErr := st.suit.any fun (r, c) => match (pre[idx st r c]!).applyMortality rate lag with | .error _ => true | .ok _ => false
+            (st, if okPre then s!"PROPFAIL C03 mortality_failed_on_consistent_state {o.ret}"
+                 else if modelErr then "ok" else s!"MISMATCH hp.mortality model=ok observed={o.ret}")
+          else
+          match invariants pre post cls false (fun k => !(isSuit st k)) with
+          | some v => finish st o v
+          | none =>
+            let spec : Option String := (List.range pre.length).findSome? fun k =>
+              let a := pre[k]!; let b := post[k]!
+              if isSuit st k && a.consistent && decide (0 ≤ rate) && decide (rate ≤ 1) && decide (0 ≤ lag) then
+                (if mortalitySpec rate lag a b then
+                    (if decide (b.died - a.died ≤ a.i) then none else some s!"PROPFAIL C02 died_exceeds_infected cell={k}")
+                 else some s!"PROPFAIL C11 mortality cell={k} rate={rate} lag={lag} pre={showCell a} post={showCell b}")
+              else none
+            match spec with
+            | some v => finish st o v
+            | none =>
+              let exp := (List.range pre.length).map fun k =>
+                let a := pre[k]!
+                let a1 := if isSuit st k then (match a.applyMortality rate lag with | .ok c' => c' | .error _ => a) else a
+                a1.stepForwardMortality
+              finish st o (cmpCells cmd exp post)
+        | _, _ => (st, "BADLINE")
+      -- step_forward(step) on all cells
+      | "hp.stepfwd", [step] =>
+        match parseNat? step with
+        | some step =>
+          match invariants pre post reclass false noSkip with
+          | some v => finish st o v
+          | none =>
+            let spec : Option String := (List.range pre.length).findSome? fun k =>
+              let a := pre[k]!; let b := post[k]!
+              if st.mt == .si then (if a == b then none else some s!"PROPFAIL C05 si_changed cell={k}")
+              else if step < st.latency && a.i != b.i then some s!"PROPFAIL C05 early_transition cell={k}"
+              else if decide (a.e.length = st.latency + 1) && !(stepForwardSpec st.latency step a b) then
+                some s!"PROPFAIL C05 shift cell={k} step={step} pre={showCell a} post={showCell b}"
+              else none
+            match spec with
+            | some v => finish st o v
+            | none => finish st o (cmpCells cmd (pre.map (Cell.stepForward st.mt st.latency step)) post)
+        | none => (st, "BADLINE")
+      | _, _ => (st, "BADLINE cmd")
 
 end Pops.Driver.HostEng
